@@ -840,3 +840,352 @@ pub fn resolve_module(defs: &[ast::RootDefinition], types: &[ast::ScopedIdentifi
         })
         .collect()
 }
+
+// ------------------------------------------------------------------------------------------ function and struct definitions as trees
+fn sem_name(s: &ast::Semantic) -> String {
+    match s {
+        ast::Semantic::DispatchThreadId => "SV_DispatchThreadID".into(),
+        ast::Semantic::GroupId => "SV_GroupID".into(),
+        ast::Semantic::GroupIndex => "SV_GroupIndex".into(),
+        ast::Semantic::GroupThreadId => "SV_GroupThreadID".into(),
+        ast::Semantic::VertexId => "SV_VertexID".into(),
+        ast::Semantic::InstanceId => "SV_InstanceID".into(),
+        ast::Semantic::PrimitiveId => "SV_PrimitiveID".into(),
+        ast::Semantic::Position => "SV_Position".into(),
+        ast::Semantic::Target(i) => format!("SV_Target{}", i),
+        ast::Semantic::Depth => "SV_Depth".into(),
+        ast::Semantic::DepthGreaterEqual => "SV_DepthGreaterEqual".into(),
+        ast::Semantic::DepthLessEqual => "SV_DepthLessEqual".into(),
+        ast::Semantic::User(s) => s.clone(),
+    }
+}
+
+fn sem_of(name: &str) -> ast::Semantic {
+    match name.to_lowercase().as_str() {
+        "sv_dispatchthreadid" => ast::Semantic::DispatchThreadId,
+        "sv_groupid" => ast::Semantic::GroupId,
+        "sv_groupindex" => ast::Semantic::GroupIndex,
+        "sv_groupthreadid" => ast::Semantic::GroupThreadId,
+        "sv_vertexid" => ast::Semantic::VertexId,
+        "sv_instanceid" => ast::Semantic::InstanceId,
+        "sv_primitiveid" => ast::Semantic::PrimitiveId,
+        "sv_position" => ast::Semantic::Position,
+        "sv_target" => ast::Semantic::Target(0),
+        "sv_depth" => ast::Semantic::Depth,
+        "sv_depthgreaterequal" => ast::Semantic::DepthGreaterEqual,
+        "sv_depthlessequal" => ast::Semantic::DepthLessEqual,
+        l if l.starts_with("sv_target") && l.len() == 10 && l.as_bytes()[9].is_ascii_digit() && l.as_bytes()[9] < b'8' => {
+            ast::Semantic::Target(l.as_bytes()[9] - b'0')
+        }
+        _ => ast::Semantic::User(name.to_string()),
+    }
+}
+
+/// `(nosem)` / `(sem NAME)`; anything else (register, several annotations) = `(annot)` (outside the model)
+fn ser_annots(a: &[ast::LocationAnnotation]) -> SExp {
+    match a {
+        [] => none_list("nosem"),
+        [ast::LocationAnnotation::Semantic(s)] => SExp::list("sem", vec![SExp::atom(&sem_name(s))]),
+        _ => none_list("annot"),
+    }
+}
+
+fn de_annots(s: &SExp) -> Option<Vec<ast::LocationAnnotation>> {
+    match s.head()? {
+        "nosem" => Some(Vec::new()),
+        "sem" => Some(vec![ast::LocationAnnotation::Semantic(sem_of(s.args().first()?.as_atom()?))]),
+        _ => None,
+    }
+}
+
+pub fn ser_function(f: &ast::FunctionDefinition) -> SExp {
+    let params: Vec<SExp> = f
+        .params
+        .iter()
+        .map(|p| {
+            SExp::list(
+                "param",
+                vec![
+                    ser_type_nodecl(&p.param_type),
+                    ser_declarator(&p.declarator),
+                    ser_annots(&p.location_annotations),
+                    match &p.default_expr {
+                        None => none_list("nodef"),
+                        Some(e) => SExp::list("def", vec![ser_expr(e)]),
+                    },
+                ],
+            )
+        })
+        .collect();
+    let mut flags = Vec::new();
+    if !f.template_params.0.is_empty() {
+        flags.push(SExp::atom("template"));
+    }
+    if f.is_const {
+        flags.push(SExp::atom("const"));
+    }
+    if f.is_volatile {
+        flags.push(SExp::atom("volatile"));
+    }
+    SExp::list(
+        "fn",
+        vec![
+            SExp::List(f.attributes.iter().map(ser_attr).collect()),
+            ser_type_nodecl(&f.returntype.return_type),
+            SExp::atom(&f.name.node),
+            SExp::List(params),
+            ser_annots(&f.returntype.location_annotations),
+            match &f.body {
+                None => none_list("nobody"),
+                Some(b) => SExp::list("body", b.iter().map(ser_stmt).collect()),
+            },
+            SExp::List(flags),
+        ],
+    )
+}
+
+pub fn de_function(s: &SExp) -> Option<ast::FunctionDefinition> {
+    if s.head()? != "fn" {
+        return None;
+    }
+    let a = s.args();
+    let mut attributes = Vec::new();
+    for x in a.first()?.as_list()? {
+        attributes.push(de_attr(x)?);
+    }
+    let ret = de_type_nodecl(a.get(1)?)?;
+    let name = a.get(2)?.as_atom()?.to_string();
+    let mut params = Vec::new();
+    for p in a.get(3)?.as_list()? {
+        if p.head()? != "param" {
+            return None;
+        }
+        let q = p.args();
+        params.push(ast::FunctionParam {
+            param_type: de_type_nodecl(q.first()?)?,
+            declarator: de_declarator(q.get(1)?)?,
+            location_annotations: de_annots(q.get(2)?)?,
+            default_expr: match q.get(3)?.head()? {
+                "nodef" => None,
+                "def" => Some(de_expr(q.get(3)?.args().first()?)?),
+                _ => return None,
+            },
+        });
+    }
+    let annots = de_annots(a.get(4)?)?;
+    let body = match a.get(5)?.head()? {
+        "nobody" => None,
+        "body" => {
+            let mut v = Vec::new();
+            for x in a.get(5)?.args() {
+                v.push(de_stmt(x)?);
+            }
+            Some(v)
+        }
+        _ => return None,
+    };
+    if !a.get(6)?.as_list()?.is_empty() {
+        return None; // template parameters / const / volatile methods: outside the request language
+    }
+    Some(ast::FunctionDefinition {
+        name: loc(name),
+        returntype: ast::FunctionReturn {
+            return_type: ret,
+            location_annotations: annots,
+        },
+        template_params: ast::TemplateParamList(Vec::new()),
+        params,
+        is_const: false,
+        is_volatile: false,
+        body,
+        attributes,
+    })
+}
+
+pub fn ser_struct(d: &ast::StructDefinition) -> SExp {
+    let members: Vec<SExp> = d
+        .members
+        .iter()
+        .map(|m| match m {
+            ast::StructEntry::Variable(v) => {
+                let vd = ast::VarDef {
+                    local_type: v.ty.clone(),
+                    defs: v.defs.clone(),
+                };
+                SExp::list("member", vec![SExp::List(v.attributes.iter().map(ser_attr).collect()), ser_vardef(&vd)])
+            }
+            ast::StructEntry::Method(f) => SExp::list("method", vec![ser_function(f)]),
+        })
+        .collect();
+    let mut flags = Vec::new();
+    if !d.template_params.0.is_empty() {
+        flags.push(SExp::atom("template"));
+    }
+    if !d.base_types.is_empty() {
+        flags.push(SExp::atom("bases"));
+    }
+    SExp::list("struct", vec![SExp::atom(&d.name.node), SExp::List(members), SExp::List(flags)])
+}
+
+pub fn de_struct(s: &SExp) -> Option<ast::StructDefinition> {
+    if s.head()? != "struct" {
+        return None;
+    }
+    let a = s.args();
+    let name = a.first()?.as_atom()?.to_string();
+    let mut members = Vec::new();
+    for m in a.get(1)?.as_list()? {
+        match m.head()? {
+            "member" => {
+                let mut attributes = Vec::new();
+                for x in m.args().first()?.as_list()? {
+                    attributes.push(de_attr(x)?);
+                }
+                let vd = de_vardef(m.args().get(1)?)?;
+                members.push(ast::StructEntry::Variable(ast::StructMember {
+                    ty: vd.local_type,
+                    defs: vd.defs,
+                    attributes,
+                }));
+            }
+            "method" => members.push(ast::StructEntry::Method(de_function(m.args().first()?)?)),
+            _ => return None,
+        }
+    }
+    if !a.get(2)?.as_list()?.is_empty() {
+        return None;
+    }
+    Some(ast::StructDefinition {
+        name: loc(name),
+        base_types: Vec::new(),
+        template_params: ast::TemplateParamList(Vec::new()),
+        members,
+    })
+}
+
+fn ser_def(d: &ast::RootDefinition) -> Option<SExp> {
+    match d {
+        ast::RootDefinition::Function(f) => Some(ser_function(f)),
+        ast::RootDefinition::Struct(s) => Some(ser_struct(s)),
+        _ => None,
+    }
+}
+
+fn de_def(s: &SExp) -> Option<ast::RootDefinition> {
+    match s.head()? {
+        "fn" => Some(ast::RootDefinition::Function(de_function(s)?)),
+        "struct" => Some(ast::RootDefinition::Struct(de_struct(s)?)),
+        _ => None,
+    }
+}
+
+/// `C09.def <tree>`: a function or struct definition as the only root definition of a module
+pub fn run_def(tree: &SExp) -> Outcome {
+    let d = match de_def(tree) {
+        Some(d) => d,
+        None => {
+            return Outcome {
+                obs: "bad-request".into(),
+                oracle: "SKIP:bad tree".into(),
+            };
+        }
+    };
+    let module = ast::Module {
+        root_definitions: vec![d.clone()],
+    };
+    let text = match guard(|| rssl_formatter::format(&module, rssl_formatter::Target::Hlsl)) {
+        Ok(Ok(t)) => t,
+        Ok(Err(_)) => {
+            return Outcome {
+                obs: "FMT-ERR".into(),
+                oracle: "SKIP:tree has an ambiguous node (not printable)".into(),
+            };
+        }
+        Err(p) => {
+            return Outcome {
+                obs: "FMT-PANIC".into(),
+                oracle: format!("FAIL:panic {}", p),
+            };
+        }
+    };
+    let stext = collapse_ws(&text);
+    let original = ser_def(&d).map(|s| s.show()).unwrap_or_default();
+    let m2 = match guard(|| lex_parse(&text)) {
+        Ok(Ok(m)) => m,
+        Ok(Err(e)) => {
+            return Outcome {
+                obs: format!("{} ==> {}", stext, e),
+                oracle: format!("FAIL:printed text is rejected ({})", e),
+            };
+        }
+        Err(p) => {
+            return Outcome {
+                obs: format!("{} ==> PANIC", stext),
+                oracle: format!("FAIL:panic {}", p),
+            };
+        }
+    };
+    let mut types = Vec::new();
+    type_names_module(&module.root_definitions, &mut types);
+    let r2 = resolve_module(&m2.root_definitions, &types);
+    if r2.len() != 1 {
+        return Outcome {
+            obs: format!("{} ==> ERR:shape roots={}", stext, r2.len()),
+            oracle: "FAIL:printed text reads back as another construct".into(),
+        };
+    }
+    let back_s = match ser_def(&r2[0]) {
+        Some(b) => align(&ser_def(&d).unwrap(), &b),
+        None => {
+            return Outcome {
+                obs: format!("{} ==> ERR:shape kind", stext),
+                oracle: "FAIL:printed text reads back as another construct".into(),
+            };
+        }
+    };
+    let back = back_s.show();
+    let obs = format!("{} ==> {}", stext, back);
+    if back != original {
+        return Outcome {
+            obs,
+            oracle: format!("FAIL:tree differs after print+parse [{}]", diff_sig(&ser_def(&d).unwrap(), &back_s)),
+        };
+    }
+    let m3 = ast::Module { root_definitions: r2 };
+    match guard(|| rssl_formatter::format(&m3, rssl_formatter::Target::Hlsl)) {
+        Ok(Ok(t2)) if t2 == text => Outcome {
+            obs,
+            oracle: "ok".into(),
+        },
+        _ => Outcome {
+            obs,
+            oracle: "FAIL:second print differs from first".into(),
+        },
+    }
+}
+
+/// the function and struct definitions of a parsed module that lie in the request language, bodies resolved
+pub fn defs_of(text: &str) -> Vec<SExp> {
+    let m = match guard(|| lex_parse(text)) {
+        Ok(Ok(m)) => m,
+        _ => return Vec::new(),
+    };
+    let types = known_types();
+    let mut out = Vec::new();
+    fn walk(defs: &[ast::RootDefinition], types: &[ast::ScopedIdentifier], out: &mut Vec<SExp>) {
+        for d in resolve_module(defs, types) {
+            match &d {
+                ast::RootDefinition::Namespace(_, inner) => walk(inner, types, out),
+                _ => {
+                    if let Some(s) = ser_def(&d) {
+                        if de_def(&s).is_some() {
+                            out.push(s);
+                        }
+                    }
+                }
+            }
+        }
+    }
+    walk(&m.root_definitions, &types, &mut out);
+    out
+}
